@@ -12,9 +12,10 @@ import DitModel.Drv.Channel
 import DitModel.Drv.Meet
 import DitModel.Drv.Maxent
 import DitModel.Drv.AuxJoint
+import DitModel.Drv.Examples
 open Dit Dit.Drv
 
-def handlers : List (String × (J → Option J)) := basicHandlers ++ simplexHandlers ++ infoHandlers ++ opsHandlers ++ constrHandlers ++ divergeHandlers ++ pidHandlers ++ channelHandlers ++ meetHandlers ++ maxentHandlers ++ auxHandlers
+def handlers : List (String × (J → Option J)) := basicHandlers ++ simplexHandlers ++ infoHandlers ++ opsHandlers ++ constrHandlers ++ divergeHandlers ++ pidHandlers ++ channelHandlers ++ meetHandlers ++ maxentHandlers ++ auxHandlers ++ exampleHandlers
 
 def answer (line : String) : String :=
   let line := line.trimAscii.toString
